@@ -303,8 +303,14 @@ static void conf_parse_string_value(struct conf_node_string *cnode)
     if (!cnode->value)
         cnode->value = xstrdup(cnode->def_value);
     if (!cnode->value) {
+        static const union conf_node_string_value no_value;
+        int changed;
+
+        /* The caller may already have cleared cnode->value, so judge by
+         * the parsed value whether the setting had one before. */
+        changed = memcmp(&cnode->parsed, &no_value, sizeof(no_value)) != 0;
         memset(&cnode->parsed, 0, sizeof(cnode->parsed));
-        if (orig_value && cnode->base.hook)
+        if (changed && cnode->base.hook)
             cnode->base.hook(&cnode->base);
         goto out;
     }
